@@ -569,6 +569,30 @@ Definition compress_prog (c : cfg) : prog :=
 Definition moment_prog (c : cfg) : prog :=
   mkprog [(vT, In_); (vX, T_)] [(vX, Op X_ T_)] [("*", ToFloat X_)].
 
+(* CPRegressor / TuckerRegressor (regression/cp_regression.py, tucker_regression.py): fit, then predict.  vT = X, vY = y, vF = the factor matrices W,
+   vW = weights (CP) / core G (Tucker), vC = weight_tensor_.  W[i] = T.tensor(rng.randn(...), **T.context(X)); weights = T.ones(rank, **T.context(X)) /
+   G = T.tensor(rng.randn(ranks ...), **T.context(X)); sweep: phi = X_unfolded . khatri_rao(W) (Tucker: . kron / G);
+   inv_term = phi^T phi + reg_W * T.eye(n, **T.context(X)) (Tucker: T.tensor(np.eye(n), **T.context(X))); W[i] = solve(inv_term, phi^T y);
+   weight_tensor_ = cp_to_tensor((weights, W)) / tucker_to_tensor((G, W)); vec_W_ = its vectorisation; predict = inner(X, weight_tensor_) / dot(X_vec, vec_W_) *)
+Definition regressor_prog (c : cfg) : prog :=
+  let phi := Op T_ (Op W_ F_) in
+  let upd := Op (Op (Op phi phi) (Op PyF ctx)) (Op phi Y_) in
+  mkprog [(vT, In_); (vY, In_); (vF, ctx); (vW, ctx); (vC, Op W_ F_)]
+         [(vF, upd); (vW, if c_alt c then upd else W_); (vC, Op W_ F_)]      (* c_alt: the Tucker core is updated as well *)
+         [("*", Op T_ C_); ("*", C_); ("*", W_); ("*", F_)].
+
+(* CP_PLSR (regression/cp_plsr.py): fit / predict / transform.  X, Y centred in place by their means; X_factors, Y_factors, coef_, X_r2, Y_r2 =
+   T.zeros(..., **T.context(X)) filled by index_update; per component: Z = tensordot(X, Y factor); Z_comp = initialize_cp(Z, 1).factors or Z / norm(Z);
+   factors normalised by their norms; coef_ from lstsq(X_factors[0], Y scores); predict = X_projection . coef_ . Y_factors^T + Y_mean_;
+   transform: scores = T.zeros(..., **T.context(X)) filled by index_update *)
+Definition plsr_prog (c : cfg) : prog :=
+  mkprog [(vT, In_); (vY, In_); (vX, ToFloat T_); (vZ, ToFloat Y_); (vT, Into T_ (Op T_ X_)); (vY, Into Y_ (Op Y_ Z_));
+          (vF, ctx); (vC, ctx)]
+         [(vU, Div (Op T_ Y_) (norm (Op T_ Y_)));
+          (vF, Into F_ (Op T_ U_));
+          (vC, Into C_ (Op F_ (Op Y_ U_)))]
+         [("*", Op (Op (Op (Into ctx (Op T_ F_)) C_) F_) Z_); ("*", Into ctx (Op T_ F_)); ("*", F_); ("*", C_)].
+
 (* parafac2 (_parafac2.py).  vT = the slices, vF = A, B, C (one variable), vC = projections, vS = projected tensor.
    init 'random': random_parafac2(.., **context): projections = qr(tl.tensor(rng, **context)), random_cp(.., **context);
    init 'svd': A = tl.ones(..., **context), B = tl.eye(rank, **context), C = svd_interface(unfolded)[0], weights None
@@ -670,6 +694,8 @@ Definition skeleton_v (mc : bool) (c : cfg) : prog :=
   | FPermute => mkprog [(vT, In_)] [] [("weights", Op T_ T_); ("factors", Op T_ T_); ("out1", ints)]  (* cp_permute_factors: (cp tensors, permutations) *)
   | FFlipSign => mkprog [(vT, In_)] [] [("weights", RealOf T_); ("factors", Op T_ (ctx_of T_))]  (* weights = abs(weights) *)
   | FCmtf => cmtf_prog c
+  | FCpReg | FTuckerReg => regressor_prog c
+  | FPlsr => plsr_prog c
   | FSvdChain => svd_chain_prog c
   | FTrAls => tr_als_prog c
   | FPower => power_prog c
